@@ -970,7 +970,8 @@ impl<'a> SelectorIter<'a> {
                 if *with_text {
                     let annotation: &Annotation = self.store.get(handle).expect("annotation handle must be valid");
                     if let (Some(textselection_handle), Some(resource_handle)) = (annotation.target().textselection_handle(), annotation.target().resource_handle()) {
-                        Cow::Owned(Selector::AnnotationSelector(handle, Some((resource_handle, textselection_handle, OffsetMode::default()))))
+                        //only selectors in this mode (the one of Offset::whole()) are merged into a range with text
+                        Cow::Owned(Selector::AnnotationSelector(handle, Some((resource_handle, textselection_handle, OffsetMode::BeginEnd))))
                     } else {
                         Cow::Owned(Selector::AnnotationSelector(handle, None))
                     }
